@@ -4,9 +4,10 @@ import ast
 
 from .. import AnalysisError
 from ..engine import rule
-from ..flow import PRUNE, Violation, explore, is_none_const, path_ends, \
-    path_is, raising_node, store_value, strip_not, truth_test
-from ..model import dotted
+from ..flow import PRUNE, Violation, cmp_sides, explore, implied_atoms, \
+    is_none_const, path_ends, path_is, raising_node, store_value, \
+    strip_not, truth_test
+from ..model import dotted, walk_local
 from ..tables import const_value, struct_fields
 from ..twopc import FS, identity_guard, resolve_local
 
@@ -760,3 +761,78 @@ def r6(R):
                update_sites=len(upd))
     for v in vs2:
         R.violation(v.node, v.message, g, v.path, instance='read_index')
+
+
+# ------------------------------------------------------------------ C01.R7
+@rule('C01.R7', 'the id the open-time scan reports as the last transaction '
+      'is only ever taken from a transaction it accepted: complete, not '
+      'checkpointed, before the stop bound', props=['C04', 'C09'],
+      min_instances=1)
+def r7(R):
+    f = R.prog.func('ZODB.FileStorage.FileStorage.read_index')
+    g, b, F = R.cfg(f, None, max_depth=0)
+    # the variable returned as the last tid
+    ret = None
+    for x in walk_local(f.node):
+        if isinstance(x, ast.Return) and isinstance(x.value, ast.Tuple) and \
+                len(x.value.elts) == 3 and isinstance(
+                    x.value.elts[2], ast.Name):
+            ret = x.value.elts[2].id
+    R.require(ret is not None, 'read_index no longer returns (pos, maxoid, '
+              'ltid)')
+    stop = 'stop' if 'stop' in f.params else None
+    seen = [0]
+
+    def edge(node, st, lab, tgt):
+        tidvar, c_ok, stop_ok = st
+        a = node.ast
+        if lab not in ('e', 'eb') and node.kind == 'stmt' and isinstance(
+                a, ast.Assign) and isinstance(a.targets[0], ast.Tuple) and \
+                len(a.targets[0].elts) == 6 and isinstance(
+                    a.value, ast.Call) and dotted(a.value.func) and \
+                dotted(a.value.func)[-1] == 'unpack' and isinstance(
+                    a.targets[0].elts[0], ast.Name):
+            # a new transaction header: nothing established about it yet
+            return (a.targets[0].elts[0].id, False, stop is None)
+        if node.kind == 'test' and lab in ('T', 'F') and tidvar:
+            for e, truth in implied_atoms(node.ast, lab):
+                if isinstance(e, ast.Compare) and len(e.ops) == 1 and \
+                        isinstance(e.comparators[0], ast.Constant) and \
+                        e.comparators[0].value in ('c', b'c') and \
+                        isinstance(e.ops[0], (ast.Eq, ast.NotEq)):
+                    if isinstance(e.ops[0], ast.Eq) != truth:
+                        c_ok = True
+                for l, op, r in cmp_sides(e):
+                    if isinstance(l, ast.Name) and l.id == tidvar and \
+                            isinstance(r, ast.Name) and r.id == stop:
+                        before = (op in (ast.Lt,) and truth) or (
+                            op in (ast.GtE,) and not truth)
+                        if before:
+                            stop_ok = True
+        return (tidvar, c_ok, stop_ok)
+
+    def at(node, st):
+        tidvar, c_ok, stop_ok = st
+        a = node.ast
+        if node.kind == 'stmt' and isinstance(a, ast.Assign) and any(
+                isinstance(t, ast.Name) and t.id == ret for t in a.targets) \
+                and isinstance(a.value, ast.Name) and a.value.id == tidvar:
+            seen[0] += 1
+            if not (c_ok and stop_ok):
+                return Violation(
+                    'read_index takes the id of a transaction as the last '
+                    'transaction id before it has %s: for an unfinished '
+                    'transaction at the end of the file (crash between vote '
+                    'and finish; a read-only open while a writer is '
+                    'active) lastTransaction() names a transaction that is '
+                    'not in the database' % (
+                        'seen that it is complete and not checkpointed'
+                        if not c_ok else 'compared it with the stop bound'))
+        return st
+
+    vs, stats = explore(g, (None, False, stop is None), at=at, edge=edge)
+    R.count(stats)
+    R.instance('read_index: %s taken from the header' % ret)
+    R.require(seen[0] or vs, 'read_index no longer records the last tid')
+    for v in vs:
+        R.violation(v.node, v.message, g, v.path)
